@@ -245,6 +245,8 @@ type Event struct {
 	Label string
 	Prio  int
 	Owner string // client connection on whose behalf the event happens ("" if shared)
+	Kind  string // for the release of a parked goroutine: what it parked on ("lock", "rlock", "after-unlock", ...)
+	Obj   string // ... and the object (lock id)
 	Do    func()
 }
 
@@ -419,7 +421,7 @@ func (w *World) Internal() []Event {
 			continue
 		}
 		p := p
-		evs = append(evs, Event{Label: "release " + p.Label(), Prio: 0, Owner: p.Who, Do: func() {
+		evs = append(evs, Event{Label: "release " + p.Label(), Prio: 0, Owner: p.Who, Kind: p.Kind, Obj: p.Obj, Do: func() {
 			out := 0
 			if p.N > 1 {
 				out = w.Ch.Choose(p.N, p.Label())
@@ -438,8 +440,17 @@ func (w *World) Internal() []Event {
 			w.Run.Release(p, out)
 		}})
 	}
+	for _, c := range w.Clients {
+		c := c
+		if c.C.NeedsCloseWake() {
+			evs = append(evs, Event{Label: "closewake " + c.C.Name, Prio: 0, Owner: c.Name, Do: func() { w.logf("closewake %s", c.C.Name); c.C.WakeClosed() }})
+		}
+	}
 	for _, b := range w.BackendConns() {
 		b := b
+		if b.C.NeedsCloseWake() {
+			evs = append(evs, Event{Label: "closewake " + b.C.Name, Prio: 0, Owner: b.Owner, Do: func() { w.logf("closewake %s", b.C.Name); b.C.WakeClosed() }})
+		}
 		if b.Dead {
 			b.C.TakeOut()
 			continue
